@@ -349,7 +349,7 @@ func (t *GzipPacked) UnmarshalTL(d *tl.Decoder) error {
 		return err
 	}
 
-	t.Obj, err = tl.DecodeUnknownObject(obj)
+	t.Obj, err = tl.DecodeUnknownObject(obj, d.ExpectedTypesInInterface()...)
 	if err != nil {
 		return errors.Wrap(err, "parsing gzipped object")
 	}
